@@ -202,7 +202,8 @@ impl StorageTxn for Txn<'_> {
     async fn add_to_working_set(&mut self, uuid: Uuid) -> Result<usize> {
         let working_set = &mut self.mut_data_ref().working_set;
         working_set.push(Some(uuid));
-        Ok(working_set.len())
+        // the index of the new entry, as documented (and as the SQLite storage returns)
+        Ok(working_set.len() - 1)
     }
 
     async fn set_working_set_item(&mut self, index: usize, uuid: Option<Uuid>) -> Result<()> {
